@@ -138,6 +138,16 @@ def run(prop, tier, seed):
             stages.append(pipeline.replay_stage(
                 [{"module": "MC_Refs.tla", "cfg": n, "workers": 8, "simulate": 300 if quick else 10000, "depth": 10, "seed": seed,
                   "extra_defs": {n: refsmod.cfg("KAll", 5, True, acts="AUpd")}}], "refs", {}, scratch, 900, name="replay_update_context_links"))
+        if prop in ("C04", "C05"):
+            # Event parameters dispatched on a class and on a subclass that inherits them (the parent class is a bystander:
+            # its Event must keep resetting itself)
+            eg = []
+            for ow in ("class", "subclass"):
+                n = "%s_ev%s.cfg" % (prop, ow)
+                eg.append({"module": M, "cfg": n, "workers": 4, "opts": {"kinds": KINDS["K3e"], "owner": ow},
+                           "extra_defs": {n: cfg(params="P3e", kind="K3e", dom="D3e", wc="WCe", initws="IWe", acts="ActsC04n" if prop == "C04" else "ActsC05n",
+                                                 upd="UIe" if prop == "C04" else "UIebad", trg="TNe", maxops=ex, hist=True, onabort=onabort)}})
+            stages.append(pipeline.replay_stage(eg, "paramcore", {"nontrivial": nt, "tolerate": tolerate}, scratch, 1500, name="replay_event_class_level"))
         th.join()
     return pipeline.finish(prop, tier, seed, t0, [box["st"]] + stages, rule=rule,
                            assumptions=["small-scope: 2 parameters (+1 Event / constant), <=3 watchers from a fixed set of configurations, <=3-5 user operations exhaustively, longer by simulation",
